@@ -273,6 +273,11 @@ impl<P: TravellingSalespersonProblem> Component<P> for MinMaxPheromoneUpdate {
             pm[b][a] = (pm[b][a] + delta).clamp(self.min_pheromones, self.max_pheromones);
         }
 
+        // Evaporation also affects the trails that were not reinforced, so keep them within the bounds as well.
+        for x in &mut pm.inner {
+            *x = x.clamp(self.min_pheromones, self.max_pheromones);
+        }
+
         Ok(())
     }
 }
